@@ -333,6 +333,18 @@ def run(case: dict, ctx) -> dict:
                     res["viol"].append({"what": "file-object pointer / content differs from the stored payload", "mech": MECH,
                                         "detail": {"path": p_, "got": fo.brief() if not fo.ok else str(fo.value[:2])}})
                 cnt["file_object_api_checks"] = cnt.get("file_object_api_checks", 0) + 1
+                if len(payload) >= 4:
+                    # a short peek into the object first, then the whole of it (same member object) and the decoded value
+                    k_short = rng.randrange(1, len(payload) // 2 + 1)
+                    pk = call(lambda: (lambda f_: (f_.read(k_short), f_.read(), f_.read(len(payload)), e_.value))(e_.get_file_object()))
+                    want_v = _get(want, p_)
+                    got_v = normalise({"x": pk.value[3]})["x"] if pk.ok else None
+                    # (read() without a length returns the whole, alignment-padded object: the payload is its beginning)
+                    if not pk.ok or (pk.value[0], pk.value[1][: len(payload)], pk.value[2]) != (payload[:k_short], payload, payload) or got_v != want_v:
+                        res["viol"].append({"what": "a short read from a file object changes what later reads / the decoded value return", "mech": MECH,
+                                            "detail": {"path": p_, "peek": k_short, "stored_len": len(payload),
+                                                       "got_lens": [len(x) for x in pk.value[:3]] if pk.ok else pk.brief()}})
+                    cnt["file_object_peek_then_value"] = cnt.get("file_object_peek_then_value", 0) + 1
             else:
                 vs = call(lambda: (e_.value_size, e_.key, e_.is_file_object_pointer))
                 stored = {"int": 8, "uint": 8, "double": 8, "bool": 4}.get(sub.kind)
@@ -342,6 +354,23 @@ def run(case: dict, ctx) -> dict:
                     res["viol"].append({"what": "value_size / key / pointer flag differ from the stored entry", "mech": MECH,
                                         "detail": {"path": p_, "got": vs.brief() if not vs.ok else str(vs.value), "stored_size": stored}})
         cnt["api_checks"] = cnt.get("api_checks", 0) + 1
+    # a fresh object of the same file, where the very first thing that happens to a file object is a short peek by the caller:
+    # whatever is decoded afterwards is still the whole stored value
+    fo_paths = [p_ for p_ in paths if not isinstance(_get(tree, p_), dict) and _get(tree, p_).file_object and len(_get(tree, p_).value) >= 2]
+    if fo_paths and not res["viol"]:
+        hf2 = call(HyperVFile, as_handle(raw))
+        if hf2.ok:
+            for p_ in rng.sample(fo_paths, k=min(3, len(fo_paths))):
+                k_short = rng.choice([1, 2, 16])
+                pk = call(lambda: _nav(hf2.value, p_).get_file_object().read(k_short))
+                cnt["fresh_object_peeks"] = cnt.get("fresh_object_peeks", 0) + 1
+                if not pk.ok:
+                    res["viol"].append({"what": f"file object read raised: {pk.brief()}", "mech": MECH, "detail": {"path": p_}})
+            d2 = call(lambda: normalise(hf2.value.as_dict()))
+            dd = first_diff(d2.value, want) if d2.ok else d2.brief()
+            if dd:
+                res["viol"].append({"what": "decoded tree differs from the stored tree after the caller peeked into a file object", "mech": MECH,
+                                    "detail": {"first_difference": str(dd)[:300]}})
     if fh.mutations:
         res["viol"].append({"what": "handle mutated", "mech": "c09.handle", "detail": {"m": fh.mutations[:3]}})
     nvals = _count(want)
